@@ -205,12 +205,16 @@ def ctx_p(chk, fx):
         rets = [cn.c(n["value"]) for n in walk(f.body) if n.get("k") == "ReturnStmt"]
         n = len(f.o["params"])
         ok = False
+        # canonical forms replace a one-expression member by its expression, so every overload shows where it ends up:
+        # context_parse(no_type{}, <the options or default options>, <the buffer>, <the stream or a local no_stream>)
         if n == 3:
             ok = rets == ["context_parse(no_type{}, $0, $1, $2)"]
         elif n == 2:
-            ok = len(rets) == 1 and re.fullmatch(r"parse\(parse_options\{.*\}, \$0, \$1\)", rets[0]) is not None
+            ok = len(rets) == 1 and (re.fullmatch(r"parse\(parse_options\{.*\}, \$0, \$1\)", rets[0]) is not None or
+                                     re.fullmatch(r"context_parse\(no_type\{\}, parse_options\{[^{}]*\}, \$0, \$1\)", rets[0]) is not None)
         elif n == 1:
-            ok = len(rets) == 1 and re.fullmatch(r"parse\(\$0, \?\w+\)", rets[0]) is not None
+            ok = len(rets) == 1 and (re.fullmatch(r"parse\(\$0, \?\w+\)", rets[0]) is not None or
+                                     re.fullmatch(r"context_parse\(no_type\{\}, parse_options\{[^{}]*\}, \$0, \?\w+\)", rets[0]) is not None)
         if ok:
             if n not in seen:
                 seen.add(n)
